@@ -1,4 +1,5 @@
 """C01 — luamin keeps the program: correspondence (model vs LuaMinifyTokenWriter) + oracle via the Lean Spec lexer."""
+import re
 import os
 
 from common import hx
@@ -208,8 +209,13 @@ def run(ctx, res):
     # CLI paths: p8tool luamin and build --lua-minify on a few carts
     from pico8 import tool
     from pico8.game import file as gfile
-    for i in range(ctx.budget(6, 60)):
+    looks = gen_lua.lookalike_programs()
+    ncli = ctx.budget(6, 60)
+    for i in range(ncli + ctx.budget(9, 45)):
         src = gen_lua.gen_program(rng)[0]
+        if i >= ncli:
+            # text lines inside strings/comments that begin like a section header, an include, a tab cut: still text after the cart files
+            src = looks[(i - ncli) * 5 % len(looks)] + (src if i % 2 else b'')
         if i % 3 == 0:
             # bytes that some text APIs treat as line boundaries but the Lua lexer does not, inside a long string and a comment
             src = b'--[[h\x0ci]]\nlocal s=[[a\x0cb\x0bc\x1cd\x1de\x85f]] q="\x0c"\n' + src
@@ -223,6 +229,7 @@ def run(ctx, res):
         # (a .p8.png cart stores the code as is: only there can the code end without a line feed)
         png = (i % 2 == 1)
         if png:
+            src = re.sub(rb'\r(?!\n)', b'\n', src)      # (see cli_multi: a .p8.png turns CR into a space)
             try:
                 g = U.make_game(rng=rng, code=src.rstrip(b'\r\n \t'), version=8)
                 src = src.rstrip(b'\r\n \t')
@@ -277,6 +284,10 @@ def cli_multi(ctx, res, rng):
         for k in range(rng.choice([2, 3])):
             src = b'-- cart %d of trial %d\nmarker%d_%d = %d\n' % (k, trial, trial, k, k) + gen_lua.gen_program(rng)[0]
             ext = rng.choice(['.p8', '.p8.png'])
+            if ext == '.p8.png':
+                # (a .p8.png returns every CR as a space — C04's documented normalisation; a lone CR that ends a line would make it a
+                # different program, so programs stored there use LF / CRLF)
+                src = re.sub(rb'\r(?!\n)', b'\n', src)
             try:
                 g = U.make_game(rng=rng, code=src, version=8)
             except Exception:
